@@ -397,7 +397,8 @@ class RadiDict:
                 else:
                     c0 = route[i]
                     for ic, c in enumerate(idx):
-                        if c == c0:
+                        # the token child is never matched as a literal
+                        if c == c0 and c != TOKEN:
                             kidx = ic; break  # found!
 
                 if kidx is None:  # not found
